@@ -44,6 +44,14 @@ chk("C18", "E1", "explicit enumeration of ALL option sequences up to length 3 (t
     "Every sequence (subset, order, repetition, nil options) of the option alphabet: creation fails exactly when the effective budget is N-1; otherwise the 1st/2nd/3rd Evaluate equal the reference under the effective configuration (last wins, order irrelevant, neutral settings == absence, hook replacement visible to operators).",
     "Reference as C01 incl. hook family; N found by bisection over the public option.", "DESIGN.md 5 C18")
 
+E2 = "E2 language explorer (real grammar.Parse / CreateEvaluator / ExpressionDump vs reference PEG / renderer)"
+chk("C10", "E2", "explicit enumeration of all byte strings up to length 4 (thorough 5) over lexical-class representatives, all short token sequences and all single bad-element injections into a derivation set, executed on the real CreateEvaluator/CreateFilter/Parse/Evaluate/Execute/ExpressionDump with a totality/shape oracle",
+    "Every string of the bounded byte and token spaces: no panic anywhere, evaluator xor error (nil filter only for the empty string), Parse error nil iff CreateEvaluator accepts and then a non-nil Expression, accepted evaluators evaluate/filter/dump without panic and never return (true, err).",
+    "Alphabet = one representative per lexical class (31 symbols) rather than all 256 byte values; no coverage-guided fuzzing (different family).", "DESIGN.md 5 C10")
+chk("C15", "E2", "explicit enumeration of all token sequences up to k tokens x gap patterns and of the complete 1-edit neighbourhood of a derivation set, each parsed by the real parser and by an independent reference PEG interpreter; accept/reject and tree equality",
+    "Every sequence of <=3 tokens (full 32-token alphabet, all gap patterns), <=2 over a 92-token extended alphabet, 4 over a 21-token sub-alphabet [thorough: 4 full with all 8 gap patterns, 3 extended, 5 sub] and every single-token insert/delete/replace/swap/duplicate of ~60 derivations: the real parser accepts exactly what the reference grammar accepts and builds the same tree.",
+    "Reference grammar is a hand transcription of grammar.peg interpreted with pigeon's observable semantics (ordered choice, global errors, lookahead, UTF-8 validity); frozen, updated only with grammar fixes; C20 ties grammar.go to grammar.peg.", "DESIGN.md 5 C15")
+
 REASON_NOT_BUILT = "check not built yet (in progress) - will be decided by bounded exhaustive exploration, see DESIGN.md"
 
 def main():
@@ -77,6 +85,7 @@ def main():
             "add_only": True,
         },
         "engines": [
+            {"name": "E2", "path": "/verif/mc/checks/c15.go", "serves_properties": ["C10","C11","C15","C16","C19"], "kind_free_text": E2},
             {"name": "E1", "path": "/verif/mc/checks/e1.go", "serves_properties": ["C01","C02","C03","C04","C05","C06","C07","C08","C09","C17","C18"], "kind_free_text": E1},
         ],
         "checks": checks,
